@@ -26,7 +26,7 @@ ASSUMPTIONS = [
 COMPONENTS = {'real': ['yldprolog.compiler', 'yldprolog.engine query/register_function/match_dynamic, module-level unify/get_value', 'generated clause code'],
               'stub': ['consumer schedule (enumerate / close / drop / re-run)', 'native predicates built from the fact tables, with raise switches'],
               'oracle': ['twin engine A (all compiled) under the same schedule; identity of the injected exception object; argument types seen by the natives']}
-REQUIRED_PROBES = ('twin_comparisons', 'native_invocations', 'style_inferred', 'style_explicit', 'style_variadic', 'yield_true', 'yield_false',
+REQUIRED_PROBES = ('engine_with_earlier_registrations', 'style_decorated', 'twin_comparisons', 'native_invocations', 'style_inferred', 'style_explicit', 'style_variadic', 'yield_true', 'yield_false',
                    'raise_fired', 'raise_arrived_same_object', 'native_next_to_dynamic_facts', 'abandon_close', 'abandon_drop')
 TERM_TYPES = {'Atom', 'Variable', 'Functor', 'int', 'str', 'float', 'NoneType', 'bool'}
 
@@ -43,21 +43,21 @@ def gen(seed, tier):
     world['native'] = [x for x in world['native'] if (x[0], x[1]) in called or rng.random() < 0.3]
     for (n, a) in called:
         if rng.random() < 0.5 and not any(x[0] == n and x[1] == a for x in world['native']):
-            world['native'].append([n, a, rng.choice(['inferred', 'explicit', 'variadic']), rng.random() < 0.5])
+            world['native'].append([n, a, rng.choice(['inferred', 'explicit', 'variadic', 'decorated']), rng.random() < 0.5])
     if not world['native']:
         n, a = rng.choice(called or keys)
-        world['native'] = [[n, a, rng.choice(['inferred', 'explicit', 'variadic']), rng.random() < 0.5]]
+        world['native'] = [[n, a, rng.choice(['inferred', 'explicit', 'variadic', 'decorated']), rng.random() < 0.5]]
     if world.get('has_n'):
         # the native-only predicate of C03 gets a compiled twin here
         world['facts'] = world['facts'] + [['n', 1, [[['a', 'a']], [['a', 'c']], [['f', 'f', [['v', 0]]]]]]]
-        world['native'] = world['native'] + [['n', 1, rng.choice(['inferred', 'explicit', 'variadic']), rng.random() < 0.5]]
+        world['native'] = world['native'] + [['n', 1, rng.choice(['inferred', 'explicit', 'variadic', 'decorated']), rng.random() < 0.5]]
         world['has_n'] = False
     if rng.random() < 0.5:
         # natives "next to dynamic facts": make sure some native predicate also has dynamic facts
         n, a = world['native'][0][:2]
         if not any(d[0] == n and d[1] == a for d in world['dynamic']):
             world['dynamic'] = world['dynamic'] + [[n, a, rng.randrange(1, 3)]]
-    return {'world': world, 'faults': 'all'}
+    return {'world': world, 'faults': 'all', 'warmup': rng.random() < 0.4}
 
 
 sample_view = c03.sample_view
@@ -74,9 +74,13 @@ def execute(plan):
     worldA = dict(world, native=[])
     try:
         ypA, qargsA, _, _ = c03.build_engine(worldA, sim, make_simyp(sim), ctlA)
-        ypB, qargsB, _, _ = c03.build_engine(world, sim, make_simyp(sim), ctlB)
+        # with 'warmup' engine B has a history: the predicates were first supplied by other Python functions (no
+        # solutions, same registration style) and called, before the real ones were registered
+        ypB, qargsB, _, _ = c03.build_engine(world, sim, make_simyp(sim), ctlB, warmup=plan.get('warmup'))
     except c03.Discard as d:
         return log.result(discard=str(d))
+    if plan.get('warmup'):
+        log.count('engine_with_earlier_registrations')
     name = world['query'][0]
     shape = core.short_hash((world['rules'], world['native']))
     for n_, a_, style, yv in world['native']:
